@@ -685,6 +685,8 @@ package plenccodec
 //@   loop 1 invariant[C04] 0 <= offset && offset <= len(data)
 //@   loop 1 decreases len(data) - offset
 //@   ensures[C04] err == nil ==> 0 <= n && n <= len(data)
+//@   # every entry puts out a value: a JSON null has a type field and no value field, and is put out all the same
+//@   ensures[C16,C13] err == nil && len(data) > 0 ==> called_Outputter_String || called_Outputter_Int64 || called_Outputter_Float64 || called_Outputter_Bool || called_Outputter_Raw || called_Descriptor_read
 
 // ---------------------------------------------------------------------------
 // struct encoders never look at field names (C03: renaming a field cannot change the encoding)
@@ -1242,7 +1244,8 @@ package plenccodec
 //@   ghostdef wfsum() ==> psum(0) == 0
 //@   loop 1 ghostdef wfsum() && i < h.Len ==> psum(i + 1) == psum(i) + vlen(uint64(@plenccodec.Codec.Size(c.Underlying, h.Data + i * int(c.EltSize), nil))) + @plenccodec.Codec.Size(c.Underlying, h.Data + i * int(c.EltSize), nil)
 //@   loop 1 assume 0 <= psum(i) && psum(i) < (1 << 50)
-//@   loop 1 invariant[C05] 0 <= i && i <= h.Len && (wfsum() ==> len(data) == len(data0) + vlen(uint64(h.Len)) + psum(i))
+//@   loop 1 invariant[C05] 0 <= i && i <= h.Len
+//@   loop 1 invariant[C05] wfsum() ==> len(data) == len(data0) + vlen(uint64(h.Len)) + psum(i)
 //@   loop 1 invariant[C06,C11] len(data) >= len(data0) + vlen(uint64(h.Len)) && (forall j int :: 0 <= j && j < len(data0) ==> data[j] == data0[j])
 //@   loop 1 invariant[C02] at(data, len(data0), venc(uint64(h.Len)), 10)
 //@   loop 1 decreases h.Len - i
